@@ -601,4 +601,105 @@ def build():
                  # a copy-on-write memmap may hold modifications that are not in the file: re-opening the file loses them (known finding K10)
                  "copy_on_write_memmaps_are_not_reopened_from_the_file": "implies(m.mode == 'c', by_value(result))"},
     ))
+    # ---- ArrayMemmapForwardReducer.__call__: which arrays travel as a temporary memmap, and what is said to the resource tracker (C19, C20)
+    def fwd_setup(interp, env):
+        g = interp.ctx.ghost
+        interp.ctx.assume(z3.And(ops.as_int_term(env.lookup("a").attrs["nbytes"]) >= 0))
+        g["A"] = env.lookup("a")
+
+    def backing(interp, args, kwargs):
+        # _get_backing_memmap: None, or the np.memmap the array's buffer belongs to
+        if interp.ctx.choose(2, "backed-by-a-memmap") == 0:
+            return None
+        m = Opaque("memmapobj", None, isinstance=("ndarray", "memmap"))
+        interp.ctx.ghost["BACKING"] = m
+        return m
+
+    def reduce_backed(interp, args, kwargs):
+        interp.ctx.events.append(("_reduce_memmap_backed", args[0], args[1]))
+        return Opaque("reduced-as-view-of-its-file", None)
+
+    def fwd_dump(interp, args, kwargs):
+        interp.ctx.events.append(("dump", args[0], args[1]))
+        return PyList([args[1]])
+
+    def fwd_makedirs(interp, args, kwargs):
+        interp.ctx.events.append(("makedirs", args[0]))
+        if interp.ctx.choose(2, "folder-exists") == 1:
+            raise PyRaise(SExc(BUILTIN_EXC["FileExistsError"], (), errno=17))
+        return None
+
+    def track(kind):
+        return _Fn(lambda i, a, k: i.ctx.events.append((kind, a[0], a[1])))
+
+    def weakmap_get(interp, recv, args, kwargs):
+        if interp.ctx.choose(2, "array-seen-before") == 0:
+            interp.raise_("KeyError")
+        return STR.fresh(interp.ctx, "known_basename")
+
+    p.models["weakmap.get"] = weakmap_get
+    p.models["weakmap.set"] = lambda i, r, a, k: i.ctx.events.append(("remember-array", a[0], a[1]))
+    def nameset_contains(interp, c, item):
+        b = BOOL.fresh(interp.ctx, "file_already_created_by_this_reducer")
+        interp.ctx.ghost["ALREADY"] = b
+        return b.term
+
+    p.models["contains:nameset"] = nameset_contains
+    p.models["nameset.add"] = lambda i, r, a, k: i.ctx.events.append(("remember-file", a[0]))
+    p.models["resolver.__call__"] = lambda i, fv, a, k: i.ctx.ghost.setdefault("FOLDER", STR.fresh(i.ctx, "folder"))
+    p.models["Str.format"] = lambda i, r, a, k: STR.fresh(i.ctx, "new_basename")
+    p.models["loadedmm.max"] = lambda i, r, a, k: None
+    fglob = {
+        "_get_backing_memmap": lambda interp: _Fn(backing),
+        "_reduce_memmap_backed": lambda interp: _Fn(reduce_backed),
+        "np": lambda interp: Opaque("npmod2", None, memmap=Opaque("npclass", "memmap", classname="memmap")),
+        "dump": lambda interp: _Fn(fwd_dump),
+        "load": lambda interp: _Fn(lambda i, a, k: (i.ctx.events.append(("prewarm-load", a[0], k.get("mmap_mode"))), Opaque("loadedmm", None))[1]),
+        "dumps": lambda interp: _Fn(lambda i, a, k: (i.ctx.events.append(("dumps", a[0])), Opaque("pickled-bytes", None))[1]),
+        "loads": lambda interp: Opaque("loads-function", None),
+        "load_temporary_memmap": lambda interp: Opaque("load_temporary_memmap-function", None),
+        "resource_tracker": lambda interp: Opaque("trackermod2", None, register=track("register")),
+        "util": lambda interp: Opaque("utilmod", None, debug=_Fn(lambda i, a, k: None)),
+        "uuid4": lambda interp: _Fn(lambda i, a, k: Opaque("uuid", None, hex=STR.fresh(i.ctx, "hex"))),
+        "errno": lambda interp: Opaque("errnomod", None, EEXIST=17),
+        "HIGHEST_PROTOCOL": 5, "FOLDER_PERMISSIONS": 0o700, "FILE_PERMISSIONS": 0o600,
+    }
+    p.models["os.makedirs"] = fwd_makedirs
+    p.models["os.chmod"] = lambda i, a, k: None
+    p.models["os.getpid"] = lambda i, a, k: 4242
+    p.models["os.path.join"] = lambda i, a, k: Opaque("joined", None, parts=tuple(a))
+    p.models["os.path.exists"] = lambda i, a, k: BOOL.fresh(i.ctx, "file_exists")
+    p.models["os.path.basename"] = lambda i, a, k: STR.fresh(i.ctx, "bn")
+    p.models["threading.current_thread"] = lambda i, a, k: Opaque("thread", None)
+    p.models["builtin:id"] = lambda i, a, k: INT.fresh(i.ctx, "id")
+    p.spec_funcs["memmapped"] = lambda interp: any(e[0] == "remember-file" for e in interp.ctx.events)
+    p.spec_funcs["registrations"] = lambda interp: sum(1 for e in interp.ctx.events if e[0] == "register")
+    p.spec_funcs["is_tag"] = lambda interp, o, tag: isinstance(o, Opaque) and o.tag == tag
+    p.add(Contract(
+        MR, "ArrayMemmapForwardReducer.__call__", props=["C19", "C20"], globals=fglob, setup=fwd_setup, inline={"_temp_folder"},
+        params=dict(self=ObjOf("ArrayMemmapForwardReducer", _max_nbytes=Opt(INT), _temp_folder_resolver=OpaqueOf("resolver"), _memmaped_arrays=OpaqueOf("weakmap"),
+                               _temporary_memmaped_filenames=OpaqueOf("nameset"), _unlink_on_gc_collect=BOOL, _prewarm=BOOL, _mmap_mode=OneOf("r", "r+", "w+", "c")),
+                    a=lambda i: Opaque("bigarray", None, dtype=Opaque("dtype", None, hasobject=BOOL.fresh(i.ctx, "hasobject")), nbytes=INT.fresh(i.ctx, "nbytes"), shape=Opaque("shape", None))),
+        ensures={},
+        ensures_body={
+            # C19: an array that already lives in a user's memmap is sent as a view of that file
+            "memmap_backed_arrays_are_reduced_as_views_of_their_file": "implies(n_events('_reduce_memmap_backed') == 1, is_tag(result, 'reduced-as-view-of-its-file') and not memmapped() and n_events('dumps') == 0)",
+            # C19: the threshold - arrays larger than max_nbytes become temporary memmaps, smaller ones, arrays holding Python objects and everything
+            # when max_nbytes is None never do (the boundary nbytes == max_nbytes is left open: the documentation does not fix it)
+            "above_the_threshold_means_memmapped": "implies(n_events('_reduce_memmap_backed') == 0 and not a.dtype.hasobject and self._max_nbytes is not None and a.nbytes > self._max_nbytes, memmapped())",
+            "never_memmapped_below_the_threshold_or_with_objects": "implies(memmapped(), not a.dtype.hasobject and self._max_nbytes is not None and a.nbytes >= self._max_nbytes)",
+            "small_arrays_travel_by_value": "implies(n_events('_reduce_memmap_backed') == 0 and not memmapped(), n_events('dumps') == 1 and ev_named('dumps')[0][1] is a and is_tag(result[0], 'loads-function'))",
+            "large_arrays_travel_as_a_file_name": "implies(memmapped(), is_tag(result[0], 'load_temporary_memmap-function') and result[1][1] is self._mmap_mode and result[1][2] is self._unlink_on_gc_collect "
+                                                  "and result[1][0] is ev_named('remember-file')[0][1])",
+            "the_array_is_written_unless_its_file_exists": "implies(memmapped(), n_events('dump') <= 1 and all(e[1] is a and e[2] is ev_named('remember-file')[0][1] for e in ev_named('dump')))",
+            # C20 (client side): one reference for the worker that will map the file (given back by its finalizer), one more - once per file -
+            # for this process (given back when the call ends)
+            "one_reference_per_worker_use_plus_one_per_new_file": "implies(memmapped(), all(e[1] is ev_named('remember-file')[0][1] and e[2] == 'file' for e in ev_named('register')) "
+                                                                  "and registrations() == (1 if self._unlink_on_gc_collect else 0) + (0 if ALREADY else 1))",
+            "nothing_registered_for_arrays_sent_by_value": "implies(not memmapped(), registrations() == 0)",
+        },
+        exsures={"FileExistsError": {"never": "False"}},
+    ))
+    p.assume_note("ArrayMemmapForwardReducer.__call__: _get_backing_memmap / _reduce_memmap_backed (own contract) / dump / load / dumps are used through summaries; "
+                  "the weak map of already dumped arrays answers arbitrarily (finding K23 is about its keying by identity); os.makedirs may find the folder existing")
     return p
